@@ -67,11 +67,11 @@ Definition ex_bundle_paus := [2]. Definition ex_bundle_stag := [0; 3]. Definitio
 Definition ex_bundle_obs : list obs := [(OState Idle Running); (OTask WSleep0); (OPlanIn 0 (Send VNone)); (OMsg {| mid := (Some 0); mcmd := COpenRun; mobj := None; mrun := 0 |}); (ODoc (DStart 0)); (OResp (RVal (VUid 0))); (OTask WSleep0); (OPlanIn 0 (Send (VUid 0))); (OMsg {| mid := (Some 1); mcmd := CCheckpoint; mobj := None; mrun := 0 |}); (OResp (RVal VNone)); (OTask WSleep0); (OPlanIn 0 (Send VNone)); (OMsg {| mid := (Some 2); mcmd := (CCreate 0); mobj := None; mrun := 0 |}); (OResp (RVal VNone)); (OTask WSleep0); (OPlanIn 0 (Send VNone)); (OMsg {| mid := (Some 3); mcmd := CRead; mobj := (Some 1); mrun := 0 |}); (ODev 1 MRead); (OTask WFuture); (OResp (RVal (VReading 1 (0)%Z))); (OTask WSleep0); (OPlanIn 0 (Send (VReading 1 (0)%Z))); (OMsg {| mid := (Some 4); mcmd := CSave; mobj := None; mrun := 0 |}); (ODoc (DDescr 0 0 [1])); (ODoc (DEvent 0 0 1 [(1, (0)%Z)])); (OResp (RVal VNone)); (OTask WSleep0); (OPlanIn 0 (Send VNone)); (OMsg {| mid := (Some 5); mcmd := CCheckpoint; mobj := None; mrun := 0 |}); (OResp (RVal VNone)); (OTask WSleep0); (OPlanIn 0 (Send VNone)); (OMsg {| mid := (Some 6); mcmd := (CCreate 0); mobj := None; mrun := 0 |}); (OResp (RVal VNone)); (OTask WSleep0); (OState Running Pausing); (OReq true); (OState Pausing Paused); (OTask WFuture); (OOut OutInterrupted Paused false true); (OState Paused Running); (OTask WSleep0); (OMsg {| mid := (Some 6); mcmd := (CCreate 0); mobj := None; mrun := 0 |}); (OResp (RVal VNone)); (OTask WSleep0); (OTask WSleep0); (OPlanIn 0 (Send VNone)); (OMsg {| mid := (Some 7); mcmd := CRead; mobj := (Some 1); mrun := 0 |}); (ODev 1 MRead); (OResp (RVal (VReading 1 (1)%Z))); (OTask WSleep0); (OPlanIn 0 (Send (VReading 1 (1)%Z))); (OMsg {| mid := (Some 8); mcmd := CSave; mobj := None; mrun := 0 |}); (ODoc (DEvent 0 0 2 [(1, (1)%Z)])); (OResp (RVal VNone)); (OTask WSleep0); (OPlanIn 0 (Send VNone)); (OMsg {| mid := (Some 9); mcmd := (CCloseRun None RsEmpty); mobj := None; mrun := 0 |}); (ODoc (DStop 0 XSuccess RsEmpty [(0, 2)])); (OResp (RVal (VUid 0))); (OTask WSleep0); (OPlanIn 0 (Send (VUid 0))); (OTask WSleep0); (OState Running Idle); (OTask WReturn); (OOut (OutReturn [0]) Idle false true)].
 
 (* ex_c09a : {"plan": ["seq", ["m", "open_run", null, [], {}, null], ["m", "checkpoint", null, [], {}, null], ["m", "clear_checkpoint", null, [], {}, null], ["m", "null", null, [], {}, null], ["m", "checkpoint", null, [], {}, null], ["m", "null", null, [], {}, null], ["m", "close_run", null, [], {}, null]], "devs": [["stage"], [], ["pause"], ["stage"]], "inject": [{"at": 4, "req": "defer"}], "script": ["resume"]} *)
-Definition ex_c09a_tapes : list (nat * list tout) := [(0, [TY {| mid := (Some 0); mcmd := COpenRun; mobj := None; mrun := 0 |}; TY {| mid := (Some 1); mcmd := CCheckpoint; mobj := None; mrun := 0 |}; TY {| mid := (Some 2); mcmd := CClearCheckpoint; mobj := None; mrun := 0 |}; TY {| mid := (Some 3); mcmd := CNull; mobj := None; mrun := 0 |}; TY {| mid := (Some 4); mcmd := CCheckpoint; mobj := None; mrun := 0 |}; TE EFailedPause])].
+Definition ex_c09a_tapes : list (nat * list tout) := [(0, [TY {| mid := (Some 0); mcmd := COpenRun; mobj := None; mrun := 0 |}; TY {| mid := (Some 1); mcmd := CCheckpoint; mobj := None; mrun := 0 |}; TY {| mid := (Some 2); mcmd := CClearCheckpoint; mobj := None; mrun := 0 |}; TY {| mid := (Some 3); mcmd := CNull; mobj := None; mrun := 0 |}; TY {| mid := (Some 4); mcmd := CCheckpoint; mobj := None; mrun := 0 |}; TY {| mid := (Some 5); mcmd := CNull; mobj := None; mrun := 0 |}; TY {| mid := (Some 6); mcmd := (CCloseRun None RsEmpty); mobj := None; mrun := 0 |}; TR (VUid 0)])].
 Definition ex_c09a_ledger : list devres := [].
-Definition ex_c09a_evs : list event := [EvMain (ACall 0); EvPermit; EvTask; EvTask; EvTask; EvTask; EvReqPause true; EvTask; EvTask; EvPermit; EvTask; EvTask; EvMainDone (ACall 0)].
+Definition ex_c09a_evs : list event := [EvMain (ACall 0); EvPermit; EvTask; EvTask; EvTask; EvTask; EvReqPause true; EvTask; EvTask; EvTask; EvTask; EvMainDone (ACall 0); EvMain AResume; EvPermit; EvTask; EvTask; EvTask; EvTask; EvTask; EvTask; EvMainDone AResume].
 Definition ex_c09a_paus := [2]. Definition ex_c09a_stag := [0; 3]. Definition ex_c09a_rec := false.
-Definition ex_c09a_obs : list obs := [(OState Idle Running); (OTask WSleep0); (OPlanIn 0 (Send VNone)); (OMsg {| mid := (Some 0); mcmd := COpenRun; mobj := None; mrun := 0 |}); (ODoc (DStart 0)); (OResp (RVal (VUid 0))); (OTask WSleep0); (OPlanIn 0 (Send (VUid 0))); (OMsg {| mid := (Some 1); mcmd := CCheckpoint; mobj := None; mrun := 0 |}); (OResp (RVal VNone)); (OTask WSleep0); (OPlanIn 0 (Send VNone)); (OMsg {| mid := (Some 2); mcmd := CClearCheckpoint; mobj := None; mrun := 0 |}); (OResp (RVal VNone)); (OTask WSleep0); (OReq true); (OPlanIn 0 (Send VNone)); (OMsg {| mid := (Some 3); mcmd := CNull; mobj := None; mrun := 0 |}); (OResp (RVal VNone)); (OTask WSleep0); (OPlanIn 0 (Send VNone)); (OMsg {| mid := (Some 4); mcmd := CCheckpoint; mobj := None; mrun := 0 |}); (OTask WFuture); (OState Running Pausing); (OResp (RVal VNone)); (OState Pausing Aborting); (OPlanIn 0 (Throw EFailedPause)); (OTask WSleep0); (ODoc (DStop 0 XAbort RsEmpty [])); (OState Aborting Idle); (OTask (WRaise ECancelled)); (OOut OutInterrupted Idle false false)].
+Definition ex_c09a_obs : list obs := [(OState Idle Running); (OTask WSleep0); (OPlanIn 0 (Send VNone)); (OMsg {| mid := (Some 0); mcmd := COpenRun; mobj := None; mrun := 0 |}); (ODoc (DStart 0)); (OResp (RVal (VUid 0))); (OTask WSleep0); (OPlanIn 0 (Send (VUid 0))); (OMsg {| mid := (Some 1); mcmd := CCheckpoint; mobj := None; mrun := 0 |}); (OResp (RVal VNone)); (OTask WSleep0); (OPlanIn 0 (Send VNone)); (OMsg {| mid := (Some 2); mcmd := CClearCheckpoint; mobj := None; mrun := 0 |}); (OResp (RVal VNone)); (OTask WSleep0); (OReq true); (OPlanIn 0 (Send VNone)); (OMsg {| mid := (Some 3); mcmd := CNull; mobj := None; mrun := 0 |}); (OResp (RVal VNone)); (OTask WSleep0); (OPlanIn 0 (Send VNone)); (OMsg {| mid := (Some 4); mcmd := CCheckpoint; mobj := None; mrun := 0 |}); (OTask WFuture); (OState Running Pausing); (OResp (RVal VNone)); (OTask WSleep0); (OState Pausing Paused); (OTask WFuture); (OOut OutInterrupted Paused false true); (OState Paused Running); (OTask WSleep0); (OTask WSleep0); (OPlanIn 0 (Send VNone)); (OMsg {| mid := (Some 5); mcmd := CNull; mobj := None; mrun := 0 |}); (OResp (RVal VNone)); (OTask WSleep0); (OPlanIn 0 (Send VNone)); (OMsg {| mid := (Some 6); mcmd := (CCloseRun None RsEmpty); mobj := None; mrun := 0 |}); (ODoc (DStop 0 XSuccess RsEmpty [])); (OResp (RVal (VUid 0))); (OTask WSleep0); (OPlanIn 0 (Send (VUid 0))); (OTask WSleep0); (OState Running Idle); (OTask WReturn); (OOut (OutReturn [0]) Idle false true)].
 
 Definition msg_null2 : msg := {| mid := Some 2; mcmd := CNull; mobj := None; mrun := 0 |}.
 
@@ -119,39 +119,19 @@ Example c09_no_checkpoint_left_reports_pending :
   In (OOut (OutReturn [0]) Idle true true) (snd (irun ex_defer_late_tapes ex_defer_late_ledger ex_defer_late_paus ex_defer_late_stag ex_defer_late_rec ex_defer_late_evs)).
 Proof. vm_compute. auto 80. Qed.
 
-(* finding C09-a: the deferred pause reaches a checkpoint that follows a clear_checkpoint: the engine goes pausing,
-   then aborting (FailedPause thrown into the plan) and never pauses *)
-Example c09_a_witness :
+(* regression input of the repaired defect C09-a (fixes/C09-a.diff): the deferred pause reaches a checkpoint that
+   follows a clear_checkpoint of the same call.  An explicit checkpoint re-establishes resumability, so the engine
+   pauses there with an empty cache, and after resume() the plan completes (recorded on the repaired code) *)
+Example c09_checkpoint_after_clear_pauses :
   check ex_c09a_tapes ex_c09a_ledger ex_c09a_paus ex_c09a_stag ex_c09a_rec ex_c09a_evs ex_c09a_obs = true /\
-  finding_C09_a (itrace ex_c09a_tapes ex_c09a_ledger ex_c09a_paus ex_c09a_stag ex_c09a_rec ex_c09a_evs) = true /\
   In (EvReqPause true) ex_c09a_evs /\
-  forallb (fun x => match x with OState _ Paused => false | _ => true end)
-          (snd (irun ex_c09a_tapes ex_c09a_ledger ex_c09a_paus ex_c09a_stag ex_c09a_rec ex_c09a_evs)) = true /\
-  In (OState Pausing Aborting) (snd (irun ex_c09a_tapes ex_c09a_ledger ex_c09a_paus ex_c09a_stag ex_c09a_rec ex_c09a_evs)) /\
-  In (OPlanIn 0 (Throw EFailedPause)) (snd (irun ex_c09a_tapes ex_c09a_ledger ex_c09a_paus ex_c09a_stag ex_c09a_rec ex_c09a_evs)).
-Proof. vm_compute. repeat split; auto 60. Qed.
-
-Lemma c09_a_refuted :
-  exists tapes ledger paus stag rec evs,
-    finding_C09_a (itrace tapes ledger paus stag rec evs) = true /\ In (EvReqPause true) evs /\
-    no_bad (snd (irun tapes ledger paus stag rec evs)) = true /\
-    ~ (exists a, In (OState a Paused) (snd (irun tapes ledger paus stag rec evs))).
-Proof.
-  exists ex_c09a_tapes, ex_c09a_ledger, ex_c09a_paus, ex_c09a_stag, ex_c09a_rec, ex_c09a_evs.
-  destruct c09_a_witness as (_ & A & B & C & _).
-  split; [exact A|]. split; [exact B|]. split; [vm_compute; reflexivity|].
-  intros [a Ha].
-  pose proof (proj1 (forallb_forall (fun x => match x with OState _ Paused => false | _ => true end)
-                                    (snd (irun ex_c09a_tapes ex_c09a_ledger ex_c09a_paus ex_c09a_stag ex_c09a_rec ex_c09a_evs))) C
-                    (OState a Paused) Ha) as H.
-  cbv beta iota in H. discriminate H.
-Qed.
-
-(* the ordinary runs above are outside that class *)
-Example c09_examples_outside_class :
-  finding_C09_a (itrace ex_defer_tapes ex_defer_ledger ex_defer_paus ex_defer_stag ex_defer_rec ex_defer_evs) = false /\
-  finding_C09_a (itrace ex_defer_late_tapes ex_defer_late_ledger ex_defer_late_paus ex_defer_late_stag ex_defer_late_rec ex_defer_late_evs) = false.
-Proof. vm_compute. split; reflexivity. Qed.
+  In (OMsg {| mid := Some 2; mcmd := CClearCheckpoint; mobj := None; mrun := 0 |})
+     (snd (irun ex_c09a_tapes ex_c09a_ledger ex_c09a_paus ex_c09a_stag ex_c09a_rec ex_c09a_evs)) /\
+  In (OOut OutInterrupted Paused false true) (snd (irun ex_c09a_tapes ex_c09a_ledger ex_c09a_paus ex_c09a_stag ex_c09a_rec ex_c09a_evs)) /\
+  In (OOut (OutReturn [0]) Idle false true) (snd (irun ex_c09a_tapes ex_c09a_ledger ex_c09a_paus ex_c09a_stag ex_c09a_rec ex_c09a_evs)) /\
+  forallb (fun x => match x with OPlanIn _ (Throw _) => false | _ => true end)
+          (snd (irun ex_c09a_tapes ex_c09a_ledger ex_c09a_paus ex_c09a_stag ex_c09a_rec ex_c09a_evs)) = true.
+Proof. vm_compute. repeat split; auto 80. Qed.
 
 (* ---- C10: pause after clear_checkpoint: FailedPause is thrown into the plan, the run is closed with exit
    status abort, the call ends interrupted with the engine idle; the engine never becomes paused *)
